@@ -8,37 +8,37 @@ V = os.path.dirname(os.path.dirname(os.path.abspath(__file__)))
 CHECKS = {
 
  'C01': ('exploration', 'seeded partition search + cut-point sweep of the byte stream under deterministic simulation, independent framing/cipher peer',
-         'Every cut position of six short server streams, plus seeded scenarios over threshold {none,-1,0,1,2,16,64,256,1024} x cipher on/off x up to 25 clientbound frames (sizes around threshold-1/threshold/threshold+1, unknown ids, up to 8 KiB) and up to 12 written packets, delivered as whole frames, 1-byte reads, tape-chosen partitions or long-paused cuts. Oracle: the early-listener log equals the sent (id, fields) sequence; the independent server parse of the client stream equals the written (id, payload) sequence; written frames are acceptable to a vanilla decoder and compressed above the threshold.',
+         'Every cut position of six short server streams, plus seeded scenarios over threshold {none,-1,0,1,2,16,64,256,1024} x cipher on/off x up to 25 clientbound frames (sizes around threshold-1/threshold/threshold+1, unknown ids, up to 8 KiB) and up to 12 written packets, delivered as whole frames, 1-byte reads, tape-chosen partitions or long-paused cuts; payload sizes include the frame-length VarInt boundaries; write sequences contain forced writes that fail during serialisation; 20% of the cases run a second session with its own framing mode on the same Connection (after disconnect(), or started by the exception handler after a server-side drop). Oracle: the early-listener log equals the sent (id, fields) sequence; the independent server parse of the client stream equals the written (id, payload) sequence; written frames are acceptable to a vanilla decoder and compressed above the threshold.',
          'DESIGN.md 3/C01'),
  'C09': ('exploration', 'seeded configuration x server-behaviour search under deterministic simulation against a pure reference function',
          'Seeded allowed-version sets (all/singleton/pair/prefix/few/invalid; names or numbers) x default version x call (connect, status with 3x3 handler modes) x server status behaviour (allowed/disallowed/unsupported/unknown protocol, missing version/protocol, {}, FIN on accept, FIN after request); thorough sweeps every supported protocol as the server reply. Expected TCP connections, handshake fields, login-start name, delivered error (type, named version, wording) and status handler/ping/latency/exit behaviour come from a reference function that shares only the version tables with pyCraft.',
          'DESIGN.md 3/C09'),
  'C10': ('exploration', 'seeded login-script search (grammar of optional steps) under deterministic simulation, independent RSA/CFB8/zlib server and session-service stub',
-         'Seeded server scripts [compress]? [encrypt]? [compress]? with plugin requests at any position, ending in success or a disconnect at any point; thresholds {0,1,64,256,2^31-1}; 1024/2048-bit keys; token sizes 1..64; server ids; with/without auth token and join replies incl. errors; optional user plugin listener; protocols either side of 385/391/707; segmentation. The independent server checks the clear-text response, both RSA blobs, CFB8 on all later bytes, framing discipline after set-compression, exactly one answer per plugin request, the join payload and hash, play entry, and the surfaced error for disconnects and failed joins.',
+         'Seeded server scripts [compress]? [encrypt]? [compress]? with plugin requests at any position, ending in success or a disconnect at any point; thresholds {0,1,64,256,2^31-1}; 1024/2048-bit keys; token sizes 1..64; server ids; with/without auth token and join replies incl. errors; optional user plugin listener; in 30% of the cases a second login on the same Connection (by the user or by the exception handler); protocols either side of 385/391/707; segmentation. The independent server checks the clear-text response, both RSA blobs, CFB8 on all later bytes, framing discipline after set-compression, exactly one answer per plugin request, the join payload and hash, play entry, and the surfaced error for disconnects and failed joins.',
          'DESIGN.md 3/C10'),
  'C11': ('exploration', 'seeded server-history search under deterministic simulation, independent server-side answer oracle',
-         'Seeded play histories of 1..400 packets (keep-alive ids at every VarInt/Long boundary incl. negatives, position-and-look, unknown ids, known-unhandled packets, pauses; bursts crossing the 50-read and 300-write batches; 0/5/320/650 user-queued packets) ending in a play disconnect, compression on/off, optional segmentation, protocol sampled with layout boundaries over-weighted (thorough: all collision-free supported versions x4). Oracle: answers equal sent ids in order exactly once, teleports acknowledged per version, deliveries in order with unknown ids generic, FIN after all answers, exit callback once, no error.',
+         'Seeded play histories of 1..400 packets (keep-alive ids at every VarInt/Long boundary incl. negatives, position-and-look, unknown ids, known-unhandled packets, pauses; bursts crossing the 50-read and 300-write batches; 0/5/320/650 user-queued packets) ending in a play disconnect, compression on/off, optional segmentation, optional slow early listener, 25% 'kick' cases (server closes right after the disconnect packet, send-error fault), protocol sampled with layout boundaries over-weighted (thorough: all collision-free supported versions x4). Oracle: answers equal sent ids in order exactly once, teleports acknowledged per version, deliveries in order with unknown ids generic, FIN after all answers, exit callback once, no error.',
          'DESIGN.md 3/C11'),
  'C13': ('exploration', 'seeded listener-configuration x history search under deterministic simulation against a reference dispatcher over the global event order',
-         'Seeded configurations of 0..10 listeners over the four classes with 0..3 type filters from a hierarchy (abstract super-classes, unrelated classes), random IgnorePacket subsets, x login and play packet histories x queued/forced user writes. A reference dispatcher predicts the global incoming call log and, per outgoing packet, early calls / written? / ordinary calls; byte offsets of the client stream at each callback decide before/after-the-write; the built-in reaction is placed between the stages through its observable effects.',
+         'Seeded configurations of 0..10 listeners over the four classes with 0..3 type filters from a hierarchy (abstract super-classes, unrelated classes), random IgnorePacket subsets (also for the set-compression packet, with a server that keeps the old framing when the reaction is suppressed), incoming listeners that write a forced packet during dispatch, x login and play packet histories x queued/forced user writes. A reference dispatcher predicts the global incoming call log and, per outgoing packet, early calls / written? / ordinary calls; byte offsets of the client stream at each callback decide before/after-the-write; the built-in reaction is placed between the stages through its observable effects.',
          'DESIGN.md 3/C13'),
  'C14': ('fault_enumeration', 'enumeration of fault origins x handler chains x final-handler modes under deterministic simulation against a reference try/except model',
-         '15 fault origins (listeners in status/login/play, login-disconnect and status-JSON reactions, five malformed-body decoder faults, outgoing listener in the write phase, exit callback) x 5 final-handler modes x all chains of length <= 2 over 7 handler kinds are enumerated (4275 cases); longer chains with random filters, early flags and return/raise/reconnect behaviour are sampled. Oracle: handler call sequence with exception identity, recorded exception/exc_info, re-raise from the thread (captured by the scheduler), connection closed unless reconnected, and a fresh connect() afterwards.',
+         '15 fault origins (listeners in status/login/play, login-disconnect and status-JSON reactions, five malformed-body decoder faults, outgoing listener in the write phase, exit callback) x 5 final-handler modes x all chains of length <= 2 over 7 handler kinds are enumerated (4275 cases); longer chains with random filters, early flags and return/raise/reconnect behaviour are sampled; varied gaps before the server's own disconnect, slow and persistently failing listeners. Oracle: handler call sequence with exception identity, recorded exception/exc_info, re-raise from the thread (captured by the scheduler), connection closed unless reconnected, and a fresh connect() afterwards.',
          'DESIGN.md 3/C14'),
  'C18': ('exploration', 'seeded stream/partition search under deterministic simulation against an independent AES-128-CFB8 (single-block ECB) and raw-RSA PKCS#1 v1.5 peer',
-         'One or two consecutive encrypted logins (1024/2048-bit keys, tokens of 1..64 bytes, optional compression) followed by up to several KiB of traffic per direction under tape-chosen segmentation and short reads, plus wrapper-level runs driving EncryptedSocketWrapper.send/recv and EncryptedFileObjectWrapper.read with random splits. Oracle: byte equality of the wire ciphertext with an independent CFB8(key=IV=secret) encryption of the expected plaintext as one continuous stream, content equality of both decrypted directions, secrets fresh per login, secret and token recovered exactly by raw RSA + un-padding.',
+         'One or two consecutive encrypted logins (1024/2048-bit keys, tokens of 1..64 bytes, optional compression) followed by up to several KiB of traffic per direction under tape-chosen segmentation and short reads, (the second login after disconnect() or started by the exception handler), two Connection objects writing concurrently, a stretch of the live inbound stream read through mixed connection.socket.recv()/file_object.read() calls, plus wrapper-level runs driving EncryptedSocketWrapper.send/recv and EncryptedFileObjectWrapper.read with random splits and an injected EAGAIN. Oracle: byte equality of the wire ciphertext with an independent CFB8(key=IV=secret) encryption of the expected plaintext as one continuous stream, content equality of both decrypted directions, secrets fresh per login, secret and token recovered exactly by raw RSA + un-padding.',
          'DESIGN.md 3/C18'),
  'C19': ('exploration', 'seeded operation-history x reply-fault search against an in-process HTTP stand-in (real requests encoding) and a reference token model',
          'Seeded histories (1..8 ops over authenticate, refresh, validate, invalidate, join, sign_out) x all 32 initial field subsets x per-request replies (valid, error status x 11 body shapes, odd 200/204 bodies). Oracle per step: authenticated predicate, no request when credentials are missing, exact endpoint/JSON payload/content type as received by the stand-in, stored tokens after success, YggdrasilError fields or malformed message on error, credentials bit-identical after failure, validate true only for 204. Single-threaded: the fault dimension is the reply sequence.',
          'DESIGN.md 3/C19'),
  'C12': ('exploration', 'seeded schedule search (deterministic simulation, baton-passed threads, line/bytecode pre-emption) + server-side history oracle',
-         'Seeded search over interleavings of 1-4 writer threads, the networking thread and a final disconnect, with pre-emption at every source line (or bytecode) of connection.py/packet.py/encryption.py and at every lock and socket call; the independent server parses (and decrypts) the byte stream and checks whole frames, at-most/exactly-once tags, per-thread queue order, flush-before-close and nothing-after-immediate-disconnect over the global event order. Sampling, not enumeration: a clean batch is evidence for the explored schedules only.',
+         'Exhaustive placement of one forced context switch at every choice point of small two-writer scenarios, then seeded search (random walk and PCT-style priorities) over interleavings of 1-4 writer threads (also: bursts of 301-650 queued packets, and a second Connection object with its own writers in the same process), the networking thread and a final disconnect, with pre-emption at every source line (or bytecode) of connection.py/packet.py/encryption.py and at every lock and socket call; the independent server parses (and decrypts) the byte stream and checks whole frames, at-most/exactly-once tags, per-thread queue order, flush-before-close and nothing-after-immediate-disconnect over the global event order. Sampling, not enumeration: a clean batch is evidence for the explored schedules only.',
          'DESIGN.md 3/C12'),
  'C15': ('fault_enumeration', 'crash-point enumeration under deterministic simulation (FIN after every byte offset of reference conversations) + bounded-liveness oracle',
-         'Every prefix length 0..N of the server stream of each reference conversation (status call, status-then-login on either connection, login with compression, with encryption, with both, plain play; two to six protocol versions) is executed, followed by FIN; the run must end within a bounded number of I/O operations after EOF (spin detector, deadlock detector on the virtual clock), report an error or take the documented status fallback, and deliver only completely sent packets. Exhaustive over the listed conversations, not over all conversations.',
+         'Every prefix length 0..N of the server stream of each reference conversation (status call, status-then-login on either connection, login with compression, with encryption, with both, plain play; 2 (quick) / all boundary protocol versions (thorough), incl. a default version outside the allowed set) is executed, followed by FIN (thorough also RST); the run must end within a bounded number of I/O operations after EOF (spin detector, deadlock detector on the virtual clock), report an error or take the documented status fallback, and deliver only completely sent packets. Exhaustive over the listed conversations, not over all conversations.',
          'DESIGN.md 3/C15'),
  'C16': ('exploration', 'enumerated + seeded call histories x seeded schedule search under deterministic simulation, linearizability-style refusal windows',
-         'All single-thread histories of length <= 3 over {connect,status,disconnect,disconnect(immediate)} x 5 server line-ups are enumerated under several schedules each; longer and two-thread histories with reconnecting listeners/handlers against accepting, refusing, disconnecting, cutting and resetting servers are sampled. Oracles over the global event order: disconnect never raises, I/O intervals of networking threads never overlap, refusal required/forbidden/either windows, accepted connect is usable (condition-based keep-alive probe), disconnect sticks, bounded termination. Three genuine defects are listed in known_findings.json.',
+         'All single-thread histories of length <= 3 over {connect,status,disconnect,disconnect(immediate)} x 5 server line-ups are enumerated under several schedules each and under every placement of one forced context switch at I/O granularity; longer and two-thread histories with reconnecting listeners/handlers against accepting, refusing, disconnecting, cutting and resetting servers are sampled. Oracles over the global event order: disconnect never raises, I/O intervals of networking threads never overlap, refusal required/forbidden/either windows, accepted connect is usable (condition-based keep-alive probe), disconnect sticks, no stale-thread action on a newer session, sessions started from listeners/handlers come up, bounded termination. Servers may compress, stall, linger in callbacks; hand-over stress family. Three genuine defects are listed in known_findings.json.',
          'DESIGN.md 3/C16'),
 }
 
